@@ -587,6 +587,31 @@ func elemArgs(thorough bool) []ref.Bits {
 			add(true, K, sh)
 		}
 	}
+	// (viii) fractions whose digits, read backwards, are a word-structured number (Exp2 separates integer and
+	// fractional digits by reversing the digit string through a 128-bit accumulator)
+	revs := WordShapes()
+	for k := 64; k <= 112; k++ {
+		revs = append(revs, pow2(k))
+	}
+	for _, K := range revs {
+		ds := []byte(K.String())
+		for i, j := 0, len(ds)-1; i < j; i, j = i+1, j-1 {
+			ds[i], ds[j] = ds[j], ds[i]
+		}
+		fr := bi(string(ds))
+		if fr.Sign() == 0 {
+			continue
+		}
+		L := len(ds)
+		for _, n := range []int64{0, 1, 7, 64} {
+			if !thorough && n == 64 {
+				continue
+			}
+			c := new(big.Int).Add(new(big.Int).Mul(big.NewInt(n), ref.Pow10(L)), fr)
+			add(false, c, -L)
+			add(true, c, -L)
+		}
+	}
 	return out
 }
 
